@@ -139,6 +139,9 @@ impl AtomicMemStub {
 }
 pub struct AtomicMemHandle { pub view: Seq<RegionDesc> }
 impl MemSnapshot {
+    // R8 target of `(*guard).clone()`: GuestRegionCollection::clone shares the same regions (assumed: A-VMM)
+    #[verifier::external_body]
+    pub fn clone_map(&self) -> (r: MemSnapshot) ensures r.regions == self.regions { unimplemented!() }
     // GuestMemoryMmap::insert_region / remove_region (assumed: A-VMM): a NEW collection; the original is untouched
     #[verifier::external_body]
     pub fn insert_region(&self, g: GuestRegionStub) -> (r: VhostUserResult<MemSnapshot>)
@@ -164,6 +167,33 @@ pub struct MemHandler { pub backend: BackendStub2, pub atomic_mem: AtomicMemStub
 pub fn retain_not_gpa(v: &mut Vec<AddrMapping>, gpa: u64)
     ensures final(v)@ == old(v)@.filter(|m: AddrMapping| m.gpa_base != gpa)
 { unimplemented!() }
+
+
+// ---- SET_MEM_TABLE (handler.rs set_mem_table)
+// R24 target of `for (region, file) in ctx.iter().zip(files)`: zip pulls the next element of the second iterator after the
+// first one yielded; the loop ends when either side is exhausted
+#[verifier::external_body]
+pub fn zip_next(files: &mut Vec<FileStub>) -> (r: Option<FileStub>)
+    ensures match r { Some(f) => old(files)@.len() > 0 && f == old(files)@[0] && final(files)@ == old(files)@.subrange(1, old(files)@.len() as int),
+                      None => old(files)@.len() == 0 && final(files)@ == old(files)@ }
+{ unimplemented!() }
+pub open spec fn descs(v: Seq<GuestRegionStub>) -> Seq<RegionDesc> { Seq::new(v.len(), |i: int| v[i].d) }
+// GuestMemoryMmap::from_regions (assumed: A-VMM): the collection of exactly these regions (it may also refuse, e.g. overlaps)
+#[verifier::external_body]
+pub fn mem_from_regions(v: Vec<GuestRegionStub>) -> (r: VhostUserResult<MemSnapshot>)
+    ensures r is Ok ==> r->Ok_0.regions == descs(v@)
+{ unimplemented!() }
+// R6 target of GuestRegionMmap::new(..).ok_or(..) without the Arc wrapper
+pub fn guest_region_new_plain(m: MmapRegionStub, a: GuestAddress) -> (r: VhostUserResult<GuestRegionStub>)
+    ensures r is Ok ==> r->Ok_0.d == (RegionDesc { gpa: a.0, size: m.size, file: m.file, off: m.off, logged: false })
+{ guest_region_new(m, a) }
+pub open spec fn region_msg_ok(m: RegionMsg) -> bool { m.memory_size > 0 && m.user_addr + m.memory_size <= u64::MAX && m.guest_phys_addr + m.memory_size <= u64::MAX }
+pub open spec fn table_view(ctx: Seq<RegionMsg>, files: Seq<FileStub>, n: int) -> Seq<RegionDesc> {
+    Seq::new(n as nat, |j: int| RegionDesc { gpa: ctx[j].guest_phys_addr, size: ctx[j].memory_size, file: files[j].id@, off: ctx[j].mmap_offset, logged: false })
+}
+pub open spec fn table_mappings(ctx: Seq<RegionMsg>, n: int) -> Seq<AddrMapping> {
+    Seq::new(n as nat, |j: int| AddrMapping { vmm_addr: ctx[j].user_addr, size: ctx[j].memory_size, gpa_base: ctx[j].guest_phys_addr })
+}
 
 // ---------- handler.rs: set_backend_req_fd — a newly attached backend-request channel inherits the negotiated settings (C14)
 pub struct BackendProxyStub { pub reply_ack: bool, pub shared_object: bool, pub shmem: bool }
